@@ -16,12 +16,12 @@ import (
 
 // Path mirrors Litestream.Fs.Path.
 type Path struct {
-	Dir, Name  int
-	Final      bool
-	Tree       int // 0 local meta dir, 1 replica dir, 2 restore output dir
-	Level      int
-	Min, Max   int
-	Str        string // absolute path (not sent to the driver)
+	Dir, Name int
+	Final     bool
+	Tree      int // 0 local meta dir, 1 replica dir, 2 restore output dir
+	Level     int
+	Min, Max  int
+	Str       string // absolute path (not sent to the driver)
 }
 
 func (p Path) Key() string { return fmt.Sprintf("%d.%d", p.Dir, p.Name) }
@@ -37,9 +37,9 @@ func (p Path) IsLTX() bool { return p.Final && p.Max > 0 }
 // Event mirrors Litestream.Fs.Event. Kind: C W S X R D U T K.
 type Event struct {
 	Kind byte
-	P, Q Path // Q: rename target
-	N    int  // D: directory id; K: operation number
-	Line int  // line in the strace output (for replay files)
+	P, Q Path   // Q: rename target
+	N    int    // D: directory id; K: operation number
+	Line int    // line in the strace output (for replay files)
 	Op   string // K: operation name
 	Sys  string
 }
@@ -84,27 +84,27 @@ type Mark struct {
 }
 
 type Trace struct {
-	Root   string
-	Events []Event
-	Marks  []Mark
-	Dirs   map[string]int
-	Counts map[string]int
+	Root                string
+	Events              []Event
+	Marks               []Mark
+	Dirs                map[string]int
+	Counts              map[string]int
 	InplaceFollowWrites int
 }
 
 var (
-	reLine    = regexp.MustCompile(`^(\d+)\s+(\w+)\((.*)\)\s+=\s+(-?\d+|\?)`)
-	reUnfin   = regexp.MustCompile(`^(\d+)\s+(\w+)\((.*) <unfinished \.\.\.>$`)
-	reResumed = regexp.MustCompile(`^(\d+)\s+<\.\.\. (\w+) resumed>(.*)$`)
-	reFd      = regexp.MustCompile(`^(\d+)<([^>]*)>`)
-	reStr     = `"((?:[^"\\]|\\.)*)"`
-	reDirfd   = `(AT_FDCWD(?:<[^>]*>)?|\d+<[^>]*>)`
-	reOpenat  = regexp.MustCompile(`^` + reDirfd + `, ` + reStr + `, ([A-Z_|0-9a-zx]+)`)
-	reRename  = regexp.MustCompile(`^` + reDirfd + `, ` + reStr + `, ` + reDirfd + `, ` + reStr)
-	reRename1 = regexp.MustCompile(`^` + reStr + `, ` + reStr)
+	reLine     = regexp.MustCompile(`^(\d+)\s+(\w+)\((.*)\)\s+=\s+(-?\d+|\?)`)
+	reUnfin    = regexp.MustCompile(`^(\d+)\s+(\w+)\((.*) <unfinished \.\.\.>$`)
+	reResumed  = regexp.MustCompile(`^(\d+)\s+<\.\.\. (\w+) resumed>(.*)$`)
+	reFd       = regexp.MustCompile(`^(\d+)<([^>]*)>`)
+	reStr      = `"((?:[^"\\]|\\.)*)"`
+	reDirfd    = `(AT_FDCWD(?:<[^>]*>)?|\d+<[^>]*>)`
+	reOpenat   = regexp.MustCompile(`^` + reDirfd + `, ` + reStr + `, ([A-Z_|0-9a-zx]+)`)
+	reRename   = regexp.MustCompile(`^` + reDirfd + `, ` + reStr + `, ` + reDirfd + `, ` + reStr)
+	reRename1  = regexp.MustCompile(`^` + reStr + `, ` + reStr)
 	reUnlinkat = regexp.MustCompile(`^` + reDirfd + `, ` + reStr)
-	reUnlink  = regexp.MustCompile(`^` + reStr)
-	reLTX     = regexp.MustCompile(`^([0-9a-f]{16})-([0-9a-f]{16})\.ltx$`)
+	reUnlink   = regexp.MustCompile(`^` + reStr)
+	reLTX      = regexp.MustCompile(`^([0-9a-f]{16})-([0-9a-f]{16})\.ltx$`)
 )
 
 func joinDirfd(dirfd, p string) string {
@@ -182,7 +182,7 @@ func Parse(file, root string) (*Trace, error) {
 	pendingUnfin := map[string]string{}
 	type rec struct {
 		sys, args, ret string
-		line          int
+		line           int
 	}
 	var recs []rec
 	ln := 0
@@ -281,6 +281,12 @@ func Parse(file, root string) (*Trace, error) {
 				add(Event{Kind: 'C', P: p, Line: r.line, Sys: r.sys})
 			} else if strings.Contains(m[3], "O_RDWR") || strings.Contains(m[3], "O_WRONLY") {
 				noCreate[abs] = true
+				// follow() opens the published output for in-place apply: from here on the follower serves /
+				// resumes from <out> + <out>-txid, so this is where a follow-mode restore ACKNOWLEDGES its
+				// initial restore: the output's and the sidecar's directory entries must be durable by now.
+				if p.Final && !p.IsLTX() && strings.HasSuffix(abs, ".db") && curOpIsFollow(curOp, tr.Marks) {
+					add(Event{Kind: 'K', N: 0, Op: "follow-start", Line: r.line})
+				}
 			}
 		case "write", "pwrite64", "fsync", "fdatasync", "close", "ftruncate", "copy_file_range", "sendfile":
 			if !ok {
@@ -672,9 +678,9 @@ func Normalize(steps []string) []string {
 // Observed extracts, for every rename onto a final name, the per-file call sequence
 // (create/write/fsync of the staging file since its creation, rename, fsyncDir before the next success marker).
 type Publication struct {
-	Target Path
-	Seq    []string
-	Index  int
+	Target  Path
+	Seq     []string
+	Index   int
 	Fetched bool // a local copy of a file the replica already holds durably (checkDatabaseBehindReplica)
 }
 
